@@ -1,6 +1,6 @@
-(** C13: no stranding - in the histories of list commands (blocking pops on any number of keys)
-    in which no client goes away while it is blocked, a key with a waiter never holds more
-    elements than wake-ups are under way for it. *)
+(** C13: no stranding - in the histories of list commands (blocking pops on any number of keys,
+    clients going away at any time), a key with a waiter never holds more elements than wake-ups
+    are under way for it. *)
 From Ferrous Require Import Base.Bytes Generated Model.Resp Model.Types Model.Strings Model.Lists
   Model.Server Model.Blocking Spec.BlockingSpec Proofs.BytesFacts Proofs.StringsFacts Proofs.ServerFacts
   Proofs.BlockingFacts Proofs.BlockingCons.
@@ -413,98 +413,121 @@ Qed.
 Lemma wmatch_sym db k u : wmatch db k u = (db =? u_db u) && beq k (u_key u).
 Proof. unfold wmatch. rewrite (Zeqb_sym (u_db u) db), (beq_sym (u_key u) k). reflexivity. Qed.
 
-(** a wake-up for a connection that is still Blocked: the element it finds - on its key or,
-    failing that, on another key of the call - is delivered; when there is none the call is
-    registered again and every key it names is empty *)
-Lemma wake_client_str now s b u W :
-  agreeW b (u :: W) -> cinv s -> BR b -> zlookup (u_conn u) (b_blk b) <> None -> STRW s (b_reg b) (u :: W) ->
-  STRW (fst (wake_client now s b u)) (b_reg (snd (wake_client now s b u))) W.
+(** a wake-up: the element it finds - on its key or, failing that, on another key of the call -
+    is delivered; when there is none the call is registered again and every key it names is
+    empty; when the client has gone the element goes back and the next waiter of the key is
+    notified (0715a3b) *)
+Lemma wcount_renotified b db k db2 k2 :
+  wcount db2 k2 (renotified b db k) =
+  if (db2 =? db) && beq k2 k then (match reg_get (b_reg b) (db, k) with [] => 0 | _ => 1 end) else 0.
 Proof.
-  intros HA CI HB Hblk HST.
+  unfold renotified. destruct (reg_get (b_reg b) (db, k)) as [|w q].
+  - rewrite wcount_nil. destruct ((db2 =? db) && beq k2 k); reflexivity.
+  - rewrite wcount_cons, wcount_nil, wmatch_sym. cbn [u_db u_key]. destruct ((db2 =? db) && beq k2 k); reflexivity.
+Qed.
+Lemma wake_client_str now s b u W ex :
+  agreeW b (u :: W) -> cinv s -> BR b -> STRW s (b_reg b) (u :: W) ->
+  b_wake (snd (wake_client now s b u)) = b_wake b ++ ex ->
+  STRW (fst (wake_client now s b u)) (b_reg (snd (wake_client now s b u))) (W ++ ex).
+Proof.
+  intros HA CI HB HST.
   destruct HA as (_ & A2 & _). destruct (A2 u (or_introl eq_refl)) as (_ & U). cbn [with_wake b_blk] in U.
-  destruct (zlookup (u_conn u) (b_blk b)) as [st|] eqn:Eb; [|congruence]. clear Hblk.
-  destruct (U st eq_refl) as (U1 & U2 & U3). pose proof (HB _ _ Eb) as Hr. rewrite <- U1 in Hr.
   pose proof (ci_all s CI (u_db u)) as HAd.
-  unfold wake_client. rewrite purge_noexp by (exact (proj2 HAd)). cbn [fst]. rewrite Eb.
+  unfold wake_client. rewrite purge_noexp by (exact (proj2 HAd)). cbn [fst].
   pose proof (on_key_pop_delta (u_left u) (get_db s (u_db u)) (u_key u) (u_db u) HAd) as Hp. cbv zeta in Hp.
   pose proof (pop_nil_empty (u_left u) (get_db s (u_db u)) (u_key u) HAd) as Hnil.
   pose proof (pop_nil_same (u_left u) (get_db s (u_db u)) (u_key u) HAd) as Hsame.
-  destruct (on_key (get_db s (u_db u)) (u_key u) (e_pop (u_left u))) as [r d']. cbn [fst snd] in Hp, Hnil, Hsame. destruct Hp as (P1 & P2 & P3).
-  (* what the key of the wake-up looks like afterwards, and the other keys *)
-  assert (Fin : forall d2, (forall k', len (lst d2 k') <= len (lst (get_db s (u_db u)) k')) ->
-            len (lst d2 (u_key u)) + 1 <= len (lst (get_db s (u_db u)) (u_key u)) \/ lst d2 (u_key u) = [] ->
-            STRW (set_db s (u_db u) d2) (b_reg b) W).
-  { intros d2 Hle Hkey db k Hd Hq. specialize (HST db k Hd Hq). rewrite wcount_cons, wmatch_sym in HST.
-    rewrite (list_at_set_db s (u_db u) d2 db k CI Hr Hd).
-    destruct (db =? u_db u) eqn:E1; cbn [andb] in HST; [|cbv iota in HST; lia]. apply Z.eqb_eq in E1. subst db. specialize (Hle k).
-    rewrite list_at_lst in HST.
-    destruct (beq k (u_key u)) eqn:E2; cbv iota in HST; [|lia]. apply beq_eq in E2. subst k.
-    destruct Hkey as [Hk|Hk]; [lia|]. rewrite Hk. pose proof (wcount_nonneg (u_db u) (u_key u) W). cbn. lia. }
-  destruct r; try contradiction; cbn [fst snd].
-  - (* delivered from the key of the wake-up *)
-    cbn [unblock emit with_blk b_reg]. apply Fin.
-    + intros k'. specialize (P3 k' None). rewrite !occm_none in P3. pose proof (ecount_nonneg (u_db u, k', None) [(u_db u, u_key u, b0)]). lia.
-    + left. specialize (P3 (u_key u) None). rewrite !occm_none, ecount_cons, ecount_nil, elem_eqb_spec, Z.eqb_refl, beq_refl in P3. cbn [mbeq andb] in P3. lia.
-  - (* the key of the wake-up is empty *)
-    destruct (recheck (bl_left st) d' (bl_keys st)) as [[[k v]|] d''] eqn:Er; cbn [fst snd].
-    + (* delivered from another key of the call *)
-      destruct (recheck_delta (bl_left st) (u_db u) _ _ _ _ P1 Er) as (Q1 & Q3).
+  destruct (on_key (get_db s (u_db u)) (u_key u) (e_pop (u_left u))) as [r d'] eqn:Epop. cbn [fst snd] in Hp, Hnil, Hsame. destruct Hp as (P1 & P2 & P3).
+  destruct (zlookup (u_conn u) (b_blk b)) as [st|] eqn:Eb.
+  - (* the connection is still Blocked *)
+    destruct (U st eq_refl) as (U1 & U2 & U3). pose proof (HB _ _ Eb) as Hr. rewrite <- U1 in Hr.
+    assert (Fin : forall d2, (forall k', len (lst d2 k') <= len (lst (get_db s (u_db u)) k')) ->
+              len (lst d2 (u_key u)) + 1 <= len (lst (get_db s (u_db u)) (u_key u)) \/ lst d2 (u_key u) = [] ->
+              STRW (set_db s (u_db u) d2) (b_reg b) W).
+    { intros d2 Hle Hkey db k Hd Hq. specialize (HST db k Hd Hq). rewrite wcount_cons, wmatch_sym in HST.
+      rewrite (list_at_set_db s (u_db u) d2 db k CI Hr Hd).
+      destruct (db =? u_db u) eqn:E1; cbn [andb] in HST; [|cbv iota in HST; lia]. apply Z.eqb_eq in E1. subst db. specialize (Hle k).
+      rewrite list_at_lst in HST.
+      destruct (beq k (u_key u)) eqn:E2; cbv iota in HST; [|lia]. apply beq_eq in E2. subst k.
+      destruct Hkey as [Hk|Hk]; [lia|]. rewrite Hk. pose proof (wcount_nonneg (u_db u) (u_key u) W). cbn. lia. }
+    destruct r; try contradiction; cbn [fst snd].
+    + intros E. cbn [unblock emit with_blk b_wake] in E. apply app_self_nil in E. subst ex. rewrite app_nil_r.
       cbn [unblock emit with_blk b_reg]. apply Fin.
-      * intros k'. specialize (Q3 k' None). rewrite !occm_none in Q3. pose proof (ecount_nonneg (u_db u, k', None) [(u_db u, k, v)]).
-        rewrite <- (Hsame I k'). lia.
-      * right. apply len_zero_nil. specialize (Q3 (u_key u) None). rewrite !occm_none in Q3.
-        pose proof (ecount_nonneg (u_db u, u_key u, None) [(u_db u, k, v)]). rewrite (Hnil I) in Q3. unfold len in *. cbn [length] in *. lia.
-    + (* nothing anywhere: registered again, in its old place; every key of the call is empty *)
-      destruct (recheck_none (bl_left st) _ _ _ P1 Er) as (N1 & N2).
-      cbn [with_reg b_reg]. intros db k Hd Hq.
-      rewrite (list_at_set_db s (u_db u) d'' db k CI Hr Hd).
-      destruct ((db =? u_db u) && bmem k (bl_keys st)) eqn:Em.
-      * apply andb_true_iff in Em. destruct Em as [E1 E2]. rewrite E1, (N2 k E2). pose proof (wcount_nonneg db k W). cbn. lia.
-      * destruct (reg_get_reregister (u_db u) (u_conn u) (bl_left st) (bl_dl st) (u_at u) (bl_keys st) (b_reg b) (db, k)) as (_ & _ & R3).
-        cbn [fst snd] in R3. destruct R3 as [[R3 R4]|R3].
-        { subst db. rewrite Z.eqb_refl, R4 in Em. discriminate. }
-        rewrite R3 in Hq. specialize (HST db k Hd Hq). rewrite wcount_cons, wmatch_sym in HST.
-        assert (Hnm : (db =? u_db u) && beq k (u_key u) = false).
-        { destruct (db =? u_db u) eqn:E1; [|reflexivity]. cbn [andb] in *. destruct (beq k (u_key u)) eqn:E2; [|reflexivity].
-          apply beq_eq in E2. subst k. congruence. }
-        rewrite Hnm in HST. rewrite list_at_lst in HST.
-        destruct (db =? u_db u) eqn:E1; [|rewrite list_at_lst; lia]. apply Z.eqb_eq in E1. subst db.
-        rewrite N1, (Hsame I k). lia.
+      * intros k'. specialize (P3 k' None). rewrite !occm_none in P3. pose proof (ecount_nonneg (u_db u, k', None) [(u_db u, u_key u, b0)]). lia.
+      * left. specialize (P3 (u_key u) None). rewrite !occm_none, ecount_cons, ecount_nil, elem_eqb_spec, Z.eqb_refl, beq_refl in P3. cbn [mbeq andb] in P3. lia.
+    + destruct (recheck (bl_left st) d' (bl_keys st)) as [[[k v]|] d''] eqn:Er; cbn [fst snd]; intros E.
+      * cbn [unblock emit with_blk b_wake] in E. apply app_self_nil in E. subst ex. rewrite app_nil_r.
+        destruct (recheck_delta (bl_left st) (u_db u) _ _ _ _ P1 Er) as (Q1 & Q3).
+        cbn [unblock emit with_blk b_reg]. apply Fin.
+        -- intros k'. specialize (Q3 k' None). rewrite !occm_none in Q3. pose proof (ecount_nonneg (u_db u, k', None) [(u_db u, k, v)]).
+           rewrite <- (Hsame I k'). lia.
+        -- right. apply len_zero_nil. specialize (Q3 (u_key u) None). rewrite !occm_none in Q3.
+           pose proof (ecount_nonneg (u_db u, u_key u, None) [(u_db u, k, v)]). rewrite (Hnil I) in Q3. unfold len in *. cbn [length] in *. lia.
+      * cbn [with_reg b_wake] in E. apply app_self_nil in E. subst ex. rewrite app_nil_r.
+        destruct (recheck_none (bl_left st) _ _ _ P1 Er) as (N1 & N2).
+        cbn [with_reg b_reg]. intros db k Hd Hq.
+        rewrite (list_at_set_db s (u_db u) d'' db k CI Hr Hd).
+        destruct ((db =? u_db u) && bmem k (bl_keys st)) eqn:Em.
+        -- apply andb_true_iff in Em. destruct Em as [E1 E2]. rewrite E1, (N2 k E2). pose proof (wcount_nonneg db k W). cbn. lia.
+        -- destruct (reg_get_reregister (u_db u) (u_conn u) (bl_left st) (bl_dl st) (u_at u) (bl_keys st) (b_reg b) (db, k)) as (_ & _ & R3).
+           cbn [fst snd] in R3. destruct R3 as [[R3 R4]|R3].
+           { subst db. rewrite Z.eqb_refl, R4 in Em. discriminate. }
+           rewrite R3 in Hq. specialize (HST db k Hd Hq). rewrite wcount_cons, wmatch_sym in HST.
+           assert (Hnm : (db =? u_db u) && beq k (u_key u) = false).
+           { destruct (db =? u_db u) eqn:E1; [|reflexivity]. cbn [andb] in *. destruct (beq k (u_key u)) eqn:E2; [|reflexivity].
+             apply beq_eq in E2. subst k. congruence. }
+           rewrite Hnm in HST. rewrite list_at_lst in HST.
+           destruct (db =? u_db u) eqn:E1; [|rewrite list_at_lst; lia]. apply Z.eqb_eq in E1. subst db.
+           rewrite N1, (Hsame I k). lia.
+  - (* the client has gone *)
+    destruct r; try contradiction; cbn [fst snd]; intros E.
+    + (* the element goes back: the lists are as before, the next waiter of the key is notified *)
+      rewrite BlockingFacts.notify_key_ready_wake in E. apply app_inv_head in E. subst ex.
+      destruct (pop_push_back _ _ _ _ _ HAd Epop) as (B1 & B2).
+      assert (D : delta s (set_db s (u_db u) (snd (on_key d' (u_key u) (e_push (u_left u) [b0])))) [] []).
+      { eapply delta_same_counts; [reflexivity|]. intros k x. rewrite B2. reflexivity. }
+      intros db k Hd Hq. pose proof (len_none_delta _ _ _ _ db k D Hd) as L. rewrite !ecount_nil in L.
+      assert (Hq0 : reg_get (b_reg b) (db, k) <> []) by (eapply nonempty_sub; [|exact Hq]; intros w; apply notify_key_ready_sub).
+      specialize (HST db k Hd Hq0). rewrite wcount_cons, wmatch_sym in HST. rewrite wcount_app, wcount_renotified.
+      destruct ((db =? u_db u) && beq k (u_key u)) eqn:Em; [|lia].
+      apply andb_true_iff in Em. destruct Em as [E1 E2]. apply Z.eqb_eq in E1. apply beq_eq in E2. subst db k.
+      destruct (reg_get (b_reg b) (u_db u, u_key u)); [congruence|lia].
+    + (* nothing there *)
+      apply app_self_nil in E. subst ex. rewrite app_nil_r.
+      assert (D : delta s (set_db s (u_db u) d') [] []).
+      { eapply delta_same_counts; [reflexivity|]. intros k x. specialize (P3 k x). rewrite ecount_nil in P3. unfold get_db in P3. lia. }
+      intros db k Hd Hq. pose proof (len_none_delta _ _ _ _ db k D Hd) as L. rewrite !ecount_nil in L.
+      specialize (HST db k Hd Hq). rewrite wcount_cons, wmatch_sym in HST.
+      destruct ((db =? u_db u) && beq k (u_key u)) eqn:Em; [|lia].
+      apply andb_true_iff in Em. destruct Em as [E1 E2]. apply Z.eqb_eq in E1. apply beq_eq in E2. subst db k.
+      rewrite (list_at_lst s (u_db u)) in L. pose proof (Hsame I (u_key u)) as Hs. rewrite (Hnil I) in Hs. unfold len in Hs at 1. cbn [length] in Hs.
+      pose proof (wcount_nonneg (u_db u) (u_key u) W). lia.
 Qed.
 
 Lemma wake_fold_str now : forall l s b,
   agreeW b (l ++ b_wake b) -> b_crashed b = false -> cinv s -> BR b ->
-  (forall u, In u l -> zlookup (u_conn u) (b_blk b) <> None) ->
   STRW s (b_reg b) (l ++ b_wake b) ->
   STRW (fst (fold_left (wake_step now) l (s, b))) (b_reg (snd (fold_left (wake_step now) l (s, b)))) (b_wake (snd (fold_left (wake_step now) l (s, b)))).
 Proof.
-  induction l as [|u l IH]; intros s b HA Hc CI HB HNO HST; cbn [fold_left fst snd]; [exact HST|].
+  induction l as [|u l IH]; intros s b HA Hc CI HB HST; cbn [fold_left fst snd]; [exact HST|].
   rewrite wake_step_eq, Hc. cbn [app] in HA, HST.
-  pose proof (agree_wake_client now s b u (l ++ b_wake b) HA) as Hnext. rewrite <- (wake_client_wake now s b u) in Hnext.
+  pose proof (agree_wake_next now s b u l HA) as Hnext.
   destruct (wake_client_cons now s b u (l ++ b_wake b) HA CI HB) as (W1 & W2 & W3).
-  pose proof (wake_client_str now s b u (l ++ b_wake b) HA CI HB (HNO u (or_introl eq_refl)) HST) as S2.
-  rewrite <- (wake_client_wake now s b u) in S2.
-  assert (Hnd : ~ In (u_conn u) (map u_conn l)).
-  { destruct HA as (_ & _ & A3 & _). unfold wakes_unique in A3. cbn [with_wake b_wake map] in A3.
-    apply NoDup_cons_iff in A3. destruct A3 as [A3 _]. intros Hin. apply A3. rewrite map_app. apply in_or_app. left. exact Hin. }
+  destruct (wake_client_wake now s b u) as (ex & E & _).
+  pose proof (wake_client_str now s b u (l ++ b_wake b) ex HA CI HB HST E) as S2.
+  rewrite <- app_assoc, <- E in S2.
   destruct (wake_client now s b u) as [s1 b1]. cbn [fst snd] in *.
   rewrite Hc in W1.
   assert (HB1 : BR b1).
   { destruct W3 as [(_ & O2 & _)|(st & k & v & _ & _ & O4 & _)]; intros c st0 Hl.
     - rewrite O2 in Hl. eapply HB; exact Hl.
     - rewrite O4 in Hl. apply zlookup_zremove_some in Hl. eapply HB; exact Hl. }
-  apply IH; try assumption.
-  intros u2 Hu2. pose proof (HNO u2 (or_intror Hu2)) as G.
-  destruct W3 as [(_ & O2 & _)|(st & k & v & _ & _ & O4 & _)]; [rewrite O2; exact G|].
-  rewrite O4, zlookup_zremove_other; [exact G|]. intros E. apply Hnd. rewrite <- E. apply in_map. exact Hu2.
+  apply IH; assumption.
 Qed.
 
-(** ================= the invariant over the histories without a disconnect while blocked ================= *)
+(** ================= the invariant over all list-command histories ================= *)
 Definition sinv (st : sys) : Prop :=
-  (exists P R, reach_g st P R) /\
-  (forall u, In u (b_wake (snd st)) -> zlookup (u_conn u) (b_blk (snd st)) <> None) /\
-  (forall c, In c (b_dead (snd st)) -> zlookup c (b_blk (snd st)) = None) /\
-  STRW (fst st) (b_reg (snd st)) (b_wake (snd st)).
+  (exists P R, reach_g st P R) /\ STRW (fst st) (b_reg (snd st)) (b_wake (snd st)).
 
 Lemma STRW_mono s s' r r' W :
   STRW s r W -> (forall db k, 0 <= db -> len (list_at s' db k) <= len (list_at s db k)) ->
@@ -514,18 +537,14 @@ Proof.
   assert (reg_get r (db, k) <> []) by (eapply nonempty_sub; [apply Hr|exact Hq]). specialize (H db k Hd H0). lia.
 Qed.
 
-Lemma ok_sk_cons st e : ok_sk st e = true -> ok_cons st e = true.
-Proof. unfold ok_sk. intros H. apply andb_true_iff in H. tauto. Qed.
-
-Lemma sinv_step st e : sinv st -> ok_sk st e = true -> sinv (step st e).
+Lemma sinv_step st e : sinv st -> ok_cons st e = true -> sinv (step st e).
 Proof.
-  intros ((P & R & HG) & HNO & HDB & HST) Hok. pose proof (ok_sk_cons _ _ Hok) as Hokc.
+  intros ((P & R & HG) & HST) Hokc.
   split; [exists (P ++ pushed_in st e), (R ++ returned_in st e); apply rg_step; assumption|].
   destruct (reach_g_ginv _ _ _ HG) as (HR & Hc & CI & HB & _).
   pose proof (ok_cons_ok _ _ Hokc) as Hok1.
   destruct st as [s b]. cbn [fst snd] in *.
   destruct (reach_inv None _ HR) as [Hi|(HA & H0 & HO & HD)]; [cbn [snd] in Hi; congruence|]. cbn [fst snd] in *.
-  unfold ok_sk in Hok. apply andb_true_iff in Hok. destruct Hok as [_ Hsk].
   unfold ok_cons in Hokc. apply andb_true_iff in Hokc. destruct Hokc as [_ Hlf].
   cbn [step]. rewrite Hc.
   destruct e as [now c f oms|now|now|c|c|].
@@ -536,93 +555,44 @@ Proof.
     pose proof (live_no_wake s b c cn HO Hcn Hnb) as Hnw.
     unfold frame_step. destruct (bprocess_frame now s b c f None oms) as [[rep s'] b1] eqn:E. cbn [fst snd].
     pose proof (frame_strand _ _ _ _ _ _ _ _ _ _ CI HA H0 Hcn Hnb Hnw Hlf HST E) as S2.
-    destruct (bprocess_frame_inv _ _ _ _ _ _ _ _ _ _ _ HA H0 Hcn Hnb Hnw E) as (_ & _ & _ & _ & G6).
-    pose proof (bprocess_frame_nw _ _ _ _ _ _ _ _ _ _ HA E) as G7.
-    pose proof (bprocess_frame_dead _ _ _ _ _ _ _ _ _ _ E) as G8.
-    assert (Hgrow : forall c2, zlookup c2 (b_blk b) <> None -> zlookup c2 (b_blk b1) <> None).
-    { intros c2 Hn. destruct G6 as [G6|(_ & st & G6)]; rewrite G6; [exact Hn|].
-      destruct (Z.eq_dec c2 c) as [->|Hne]; [rewrite zlookup_zset_same; discriminate|rewrite zlookup_zset_other by exact Hne; exact Hn]. }
-    assert (Goal : (forall u, In u (b_wake b1) -> zlookup (u_conn u) (b_blk b1) <> None) /\
-                   (forall c0, In c0 (b_dead b1) -> zlookup c0 (b_blk b1) = None) /\ STRW s' (b_reg b1) (b_wake b1)).
-    { split; [|split; [|exact S2]].
-      - intros u Hu. apply Hgrow. destruct (G7 u Hu) as [G|G]; [apply HNO; exact G|exact G].
-      - intros c0 Hin. rewrite G8 in Hin. destruct G6 as [G6|(_ & st & G6)]; rewrite G6; [apply HDB; exact Hin|].
-        assert (c0 <> c) by (intros E0; subst c0; rewrite (HD c Hin) in Hcn; discriminate).
-        rewrite zlookup_zset_other by exact H. apply HDB. exact Hin. }
-    destruct rep; exact Goal.
+    destruct rep; exact S2.
   - (* wake-ups *)
     assert (HA' : agreeW (with_wake b (skipn 32 (b_wake b))) (firstn 32 (b_wake b) ++ b_wake (with_wake b (skipn 32 (b_wake b))))).
     { cbn [with_wake b_wake]. unfold agreeW. rewrite firstn_skipn. apply agreeW_self in HA. unfold agreeW in HA. destruct b; exact HA. }
-    assert (HNO1 : forall u, In u (firstn 32 (b_wake b)) -> zlookup (u_conn u) (b_blk (with_wake b (skipn 32 (b_wake b)))) <> None).
-    { intros u Hu. apply HNO. rewrite <- (firstn_skipn 32 (b_wake b)). apply in_or_app. left. exact Hu. }
     assert (HST1 : STRW s (b_reg (with_wake b (skipn 32 (b_wake b)))) (firstn 32 (b_wake b) ++ b_wake (with_wake b (skipn 32 (b_wake b))))).
     { cbn [with_wake b_reg b_wake]. rewrite firstn_skipn. exact HST. }
-    pose proof (wake_fold_str now (firstn 32 (b_wake b)) s (with_wake b (skipn 32 (b_wake b))) HA' Hc CI HB HNO1 HST1) as S2.
-    destruct (process_wakeups_misc now s b) as (M1 & M2 & M3).
-    unfold process_wakeups in *. split; [|split; [|exact S2]].
-    + intros u Hu Hn. rewrite M2 in Hu. destruct (M3 _ Hn) as [G|G].
-      * apply (HNO u); [|exact G]. rewrite <- (firstn_skipn 32 (b_wake b)). apply in_or_app. right. exact Hu.
-      * destruct HA as (_ & _ & A3 & _). unfold wakes_unique in A3. rewrite <- (firstn_skipn 32 (b_wake b)), map_app in A3.
-        apply (NoDup_app_disjoint _ _ A3 (u_conn u)); [exact G|apply in_map; exact Hu].
-    + intros c0 Hin. rewrite M1 in Hin. destruct (zlookup c0 (b_blk (snd (fold_left (wake_step now) (firstn 32 (b_wake b)) (s, with_wake b (skipn 32 (b_wake b))))))) eqn:El; [|reflexivity].
-      exfalso. pose proof (process_wakeups_wrote now s b HA) as (new & _ & _ & _ & _ & K). unfold process_wakeups in K.
-      rewrite (K c0 (HDB c0 Hin)) in El. discriminate.
-  - (* timeouts: waiters leave, nothing else; a connection with a wake-up under way has no registration *)
+    exact (wake_fold_str now (firstn 32 (b_wake b)) s (with_wake b (skipn 32 (b_wake b))) HA' Hc CI HB HST1).
+  - (* timeouts: waiters leave, nothing else *)
     cbn [fst snd]. unfold process_timeouts. destruct (expire_reg now (b_reg b)) as [ex r'] eqn:Ee.
-    destruct (timeout_fold ex (with_reg b r')) as (T1 & T2 & _ & T4). cbn [with_reg b_reg b_wake b_blk] in T1, T2, T4.
-    assert (Td : forall ex0 bx, b_dead (fold_left timeout_conn ex0 bx) = b_dead bx).
-    { induction ex0 as [|c0 ex0 IH]; intros bx; cbn [fold_left]; [reflexivity|]. rewrite IH. unfold timeout_conn. destruct (zlookup c0 (b_blk bx)); reflexivity. }
-    split; [|split].
-    + intros u Hu. rewrite T2 in Hu. rewrite T4. destruct (existsb (Z.eqb (u_conn u)) ex) eqn:Eex; [|apply HNO; exact Hu].
-      exfalso. apply existsb_eqb_in in Eex. assert (ex = fst (expire_reg now (b_reg b))) by (rewrite Ee; reflexivity). subst ex.
-      apply in_expired_ids in Eex. destruct Eex as (rk3 & q3 & w3 & H1 & H2 & _ & H4).
-      destruct HA as (_ & A2 & _). destruct (A2 u Hu) as (T5 & _). pose proof (T5 _ _ H1) as Hz. rewrite cnt_zero in Hz. exact (Hz w3 H2 H4).
-    + intros c0 Hin. rewrite Td in Hin. rewrite T4. destruct (existsb _ ex); [reflexivity|apply HDB; exact Hin].
-    + rewrite T1, T2. eapply STRW_mono; [exact HST|intros; lia|].
-      intros rk w Hw. assert (r' = snd (expire_reg now (b_reg b))) by (rewrite Ee; reflexivity). subst r'.
-      rewrite reg_get_expire in Hw. eapply in_filter_sub; exact Hw.
+    destruct (timeout_fold ex (with_reg b r')) as (T1 & T2 & _). cbn [with_reg b_reg b_wake] in T1, T2.
+    rewrite T1, T2. eapply STRW_mono; [exact HST|intros; lia|].
+    intros rk w Hw. assert (r' = snd (expire_reg now (b_reg b))) by (rewrite Ee; reflexivity). subst r'.
+    rewrite reg_get_expire in Hw. eapply in_filter_sub; exact Hw.
   - (* connect *)
-    cbn [fst snd]. split; [exact HNO|]. split; [exact HDB|]. eapply STRW_mono; [exact HST|intros; apply Z.le_refl|auto].
-  - (* a client that is not blocked goes away *)
-    cbn [fst snd with_dead b_wake b_blk b_dead b_reg]. apply negb_true_iff in Hsk. apply is_blocked_false in Hsk.
-    split; [exact HNO|]. split; [intros c0 [<-|Hin]; [exact Hsk|apply HDB; exact Hin]|].
-    eapply STRW_mono; [exact HST|intros; apply Z.le_refl|auto].
-  - (* the server notices the clients that went away: none of them was blocked *)
+    cbn [fst snd]. eapply STRW_mono; [exact HST|intros; apply Z.le_refl|auto].
+  - (* a client goes away, blocked or not *)
+    cbn [fst snd with_dead b_wake b_reg]. eapply STRW_mono; [exact HST|intros; apply Z.le_refl|auto].
+  - (* the server notices the clients that went away: waiters leave *)
     cbn [fst snd]. unfold reap_dead.
-    destruct (drop_fold (filter (noticed b) (b_dead b)) (with_dead b (filter (fun c => negb (noticed b c)) (b_dead b)))) as (_ & D2 & _ & _ & D5 & D6).
-    cbn [with_dead b_wake b_dead b_blk] in D2, D5, D6.
-    split; [|split].
-    + intros u Hu. rewrite D2 in Hu. rewrite D6. destruct (existsb (Z.eqb (u_conn u)) (filter (noticed b) (b_dead b))) eqn:Eex; [|apply HNO; exact Hu].
-      exfalso. apply existsb_eqb_in in Eex. apply in_filter_sub in Eex. exact (HNO u Hu (HDB _ Eex)).
-    + intros c0 Hin. rewrite D5 in Hin. apply in_filter_sub in Hin. rewrite D6. destruct (existsb _ _); [reflexivity|apply HDB; exact Hin].
-    + rewrite D2. eapply STRW_mono; [exact HST|intros; apply Z.le_refl|].
-      intros rk w Hw. exact (drop_fold_reg _ _ _ _ Hw).
+    destruct (drop_fold (filter (noticed b) (b_dead b)) (with_dead b (filter (fun c => negb (noticed b c)) (b_dead b)))) as (_ & D2 & _).
+    cbn [with_dead b_wake] in D2. rewrite D2. eapply STRW_mono; [exact HST|intros; apply Z.le_refl|].
+    intros rk w Hw. exact (drop_fold_reg _ _ _ _ Hw).
 Qed.
 
-Theorem reach_sk_sinv st : reach_sk st -> sinv st.
+Theorem reach_g_sinv st P R : reach_g st P R -> sinv st.
 Proof.
   induction 1.
-  - split; [exists [], []; constructor|]. split; [intros u []|]. split; [intros c []|]. intros db k _ Hq. cbn in Hq. congruence.
+  - split; [exists [], []; constructor|]. intros db k _ Hq. cbn in Hq. congruence.
   - apply sinv_step; assumption.
 Qed.
 
 (** a key with a waiter holds at most as many elements as wake-ups are under way for it *)
-Theorem no_stranding st : reach_sk st -> no_strand st.
-Proof. intros H. destruct (reach_sk_sinv st H) as (_ & _ & _ & HS). exact HS. Qed.
+Theorem no_stranding st P R : reach_g st P R -> no_strand st.
+Proof. intros H. exact (proj2 (reach_g_sinv st P R H)). Qed.
 (** once the wake-up queue has drained, nobody is blocked on a key that holds an element *)
-Theorem no_stranding_drained st : reach_sk st -> b_wake (snd st) = [] ->
+Theorem no_stranding_drained st P R : reach_g st P R -> b_wake (snd st) = [] ->
   forall db k, 0 <= db -> reg_get (b_reg (snd st)) (db, k) <> [] -> list_at (fst st) db k = [].
 Proof.
-  intros H Hw db k Hd Hq. pose proof (no_stranding st H db k Hd Hq) as Hl. rewrite Hw in Hl. cbn in Hl.
+  intros H Hw db k Hd Hq. pose proof (no_stranding st P R H db k Hd Hq) as Hl. rewrite Hw in Hl. cbn in Hl.
   destruct (list_at (fst st) db k); [reflexivity|]. unfold len in Hl. cbn [length] in Hl. lia.
-Qed.
-(** in these histories every wake-up under way belongs to a connection that is still Blocked *)
-Theorem no_orphan_wakeups st : reach_sk st ->
-  forall u, In u (b_wake (snd st)) -> zlookup (u_conn u) (b_blk (snd st)) <> None.
-Proof. intros H. destruct (reach_sk_sinv st H) as (_ & HN & _). exact HN. Qed.
-
-Lemma run_reach_sk : forall evs st, reach_sk st -> all_ok_sk st evs = true -> reach_sk (run st evs).
-Proof.
-  induction evs as [|e evs IH]; intros st H Hok; cbn [run fold_left all_ok_sk] in *; [exact H|].
-  apply andb_true_iff in Hok. destruct Hok as [H1 H2]. apply IH; [apply rsk_step; assumption|exact H2].
 Qed.
